@@ -1,16 +1,19 @@
 #!/bin/bash
-# Developer-side: apply a seeded change to /repo, run the quick check(s) of the property, undo the change.
-# usage: harness/seeded_run.sh seeded/<name> [Cxx ...]
+# Developer-side: apply a seeded change to a scratch worktree of /repo (HEAD), run the quick check(s) of the
+# property against it (VERIF_REPO), remove the worktree.   usage: harness/seeded_run.sh seeded/<name> [Cxx ...]
 set -u
 D="$1"; shift
 PROPS="$@"
-[ -z "$PROPS" ] && PROPS=$(python3 -c "import json,sys; print(json.load(open('$D/meta.json'))['property'])")
 cd /verif
-git -C /repo diff --quiet || { echo "/repo not clean"; exit 3; }
-git -C /repo apply --3way "$PWD/$D/patch.diff" 2>/dev/null || git -C /repo apply "$PWD/$D/patch.diff" || { echo "patch does not apply"; exit 3; }
+[ -z "$PROPS" ] && PROPS=$(python3 -c "import json,sys; print(json.load(open('$D/meta.json'))['property'])")
+WT=/tmp/seedrepo_$$
+git -C /repo worktree add -q --detach "$WT" HEAD || exit 3
+if ! git -C "$WT" apply --3way "$PWD/$D/patch.diff" 2>/dev/null && ! git -C "$WT" apply "$PWD/$D/patch.diff"; then
+  echo "== $D patch does not apply to /repo HEAD"; git -C /repo worktree remove --force "$WT"; exit 3
+fi
 for P in $PROPS; do
-  ./check "$P" --tier quick > "/tmp/seeded_$$.log" 2>&1; rc=$?
-  echo "== $D $P rc=$rc"; grep -E "VIOLATION|KNOWN-FINDING|^\[$P\]|INFRA" "/tmp/seeded_$$.log" | cut -c1-300
+  VERIF_REPO="$WT" ./check "$P" --tier quick > "/tmp/seeded_$$.log" 2>&1; rc=$?
+  echo "== $D $P rc=$rc"; grep -E "VIOLATION|^\[$P\]|INFRA" "/tmp/seeded_$$.log" | cut -c1-300
 done
 rm -f "/tmp/seeded_$$.log"
-git -C /repo checkout -q HEAD -- .
+git -C /repo worktree remove --force "$WT"
